@@ -91,6 +91,9 @@ theorem sortNat_strict {l : List Nat} (h : l.Nodup) : (sortNat l).Pairwise (· <
   have hn : (sortNat l).Nodup := (sortNat_perm l).nodup_iff.2 h
   exact ((sortNat_sorted l).and hn).imp (by intro a b ⟨h1, h2⟩; omega)
 
+theorem sortNat_reverse_nodup {l : List Nat} : (sortNat l).reverse.Nodup ↔ l.Nodup :=
+  ((List.reverse_perm _).trans (sortNat_perm l)).nodup_iff
+
 theorem sortNat_reverse_desc {l : List Nat} (h : l.Nodup) : (sortNat l).reverse.Pairwise (· > ·) := by
   rw [List.pairwise_reverse]; exact sortNat_strict h
 
@@ -412,7 +415,8 @@ theorem Arr.squeeze_some_ok (a : Arr α) (axes : List Int) (hwf : a.WF)
     simp [List.getD, this]
   have hf := remove_fold_ok _ a.shape (sortNat_reverse_desc hnd) (fun d hd => h1 d (hmem d hd))
   unfold Arr.squeeze
-  simp only [hany, Bool.false_eq_true, if_false, mapM'_idx_ok a.shape _ hlt, Res.bind_ok, hdims, hf.1]
+  have hnd' : ¬ ¬ (sortNat (axes.map (normalizeAxis a.ndim))).reverse.Nodup := not_not_intro (sortNat_reverse_nodup.2 hnd)
+  simp only [hany, Bool.false_eq_true, if_false, if_neg hnd', mapM'_idx_ok a.shape _ hlt, Res.bind_ok, hdims, hf.1]
   exact Arr.reshape_of_prod hwf hf.2
 
 theorem Arr.squeeze_some_out_of_range (a : Arr α) (axes : List Int)
@@ -427,6 +431,7 @@ theorem Arr.squeeze_some_out_of_range (a : Arr α) (axes : List Int)
 
 theorem Arr.squeeze_some_nonunit (a : Arr α) (axes : List Int)
     (hin : ∀ x ∈ axes.map (normalizeAxis a.ndim), x < a.ndim)
+    (hnd : (axes.map (normalizeAxis a.ndim)).Nodup)
     (h : ∃ x ∈ axes.map (normalizeAxis a.ndim), a.shape[x]? ≠ some 1) :
     a.squeeze (some axes) = .err .SqueezeShapeOfAxisMustBeOne := by
   have hmem : ∀ x ∈ (sortNat (axes.map (normalizeAxis a.ndim))).reverse, x ∈ axes.map (normalizeAxis a.ndim) :=
@@ -446,6 +451,19 @@ theorem Arr.squeeze_some_nonunit (a : Arr α) (axes : List Int)
     simp only [List.getD, List.getElem?_eq_getElem hxl, Option.getD_some, bne_iff_ne, ne_eq]
     intro h1; apply hne; rw [List.getElem?_eq_getElem hxl, h1]
   unfold Arr.squeeze
-  simp only [hany, Bool.false_eq_true, if_false, mapM'_idx_ok a.shape _ hlt, Res.bind_ok, hdims, if_true]
+  have hnd' : ¬ ¬ (sortNat (axes.map (normalizeAxis a.ndim))).reverse.Nodup := not_not_intro (sortNat_reverse_nodup.2 hnd)
+  simp only [hany, Bool.false_eq_true, if_false, if_neg hnd', mapM'_idx_ok a.shape _ hlt, Res.bind_ok, hdims, if_true]
+
+theorem Arr.squeeze_some_repeated (a : Arr α) (axes : List Int)
+    (hin : ∀ x ∈ axes.map (normalizeAxis a.ndim), x < a.ndim)
+    (hnd : ¬ (axes.map (normalizeAxis a.ndim)).Nodup) :
+    a.squeeze (some axes) = .err .MustBeUnique := by
+  have hany : (sortNat (axes.map (normalizeAxis a.ndim))).reverse.any (fun x => decide (x ≥ a.ndim)) = false := by
+    rw [List.any_eq_false]; intro x hx
+    have := hin x (mem_sortNat.1 (List.mem_reverse.1 hx))
+    simp only [ge_iff_le, decide_eq_true_eq]; omega
+  have hnd' : ¬ (sortNat (axes.map (normalizeAxis a.ndim))).reverse.Nodup := fun h => hnd (sortNat_reverse_nodup.1 h)
+  unfold Arr.squeeze
+  simp only [hany, Bool.false_eq_true, if_false, if_pos hnd']
 
 end ArrModel
